@@ -188,4 +188,243 @@ def conditions(tier):
     cs.append(Cond('k2_path_inside_dir', b, pre, timeout=90 if tier == 'quick' else 900,
                    group='K2', descr='path_inside_dir vs component-prefix reference',
                    bounds=f'|path|<={np_}, |prefix|<={nq}, all code points, normalised'))
+    cs += m_conditions(tier)
+    return cs
+
+
+# ---------------------------------------------------------------------------------------
+# M: whole-tree verdicts on the model filesystem
+from vf.modelfs import ModelFS, mk, digest_for  # noqa: E402
+from vf.scen import make_cond, partitions, V as V_   # noqa: E402
+from vf import tree                            # noqa: E402
+
+ETAGS = ('DATA', 'MISC', 'EBUILD', 'MANIFEST', 'IGNORE')
+
+
+def file_slot(v, fs, rel, p, kinds=('absent', 'file', 'dir')):
+    k = v.choice(p + '_kind', len(kinds))
+    size, dig, mt = v.size(p + '_size'), v.dig(p + '_dig'), v.int(p + '_mtime')
+    kind = kinds[k]
+    if kind == 'file':
+        fs.add_file(rel, size=size, digest=dig, mtime=mt)
+    elif kind == 'dir':
+        fs.add_dir(rel)
+    elif kind != 'absent':
+        fs.add_file(rel, kind=kind)
+    return kind
+
+
+def entry_slot(v, p, path, tags=ETAGS, two_hashes=False):
+    present = v.bool(p + '_present')
+    t = v.lazychoice(p + '_tag', len(tags))
+    size, dig = v.size(p + '_size'), v.dig(p + '_dig')
+    dig2 = v.dig(p + '_dig2') if two_hashes else None
+    if not present:
+        return []
+    tag = tags[t()]
+    if tag == 'IGNORE':
+        return [mk('IGNORE', path)]
+    ck = {'MD5': digest_for('MD5', dig)}
+    if two_hashes:
+        ck['SHA1'] = digest_for('SHA1', dig2)
+    return [mk(tag, path, size, **ck)]
+
+
+class Ctx:
+    pass
+
+
+def pick(seq, idx):
+    return seq[idx]
+
+
+class Const(V_):
+    """value supplier that answers from a table of constants for some names (making that
+    part of the scenario consistent by construction) and defers to `v` otherwise"""
+
+    def __init__(self, v, consts):
+        self.v, self.consts = v, consts
+
+    def _c(self, name, f, *a):
+        if name in self.consts:
+            return self.consts[name]
+        return f(name, *a)
+
+    def int(self, name, lo=None, hi=None):
+        return self._c(name, self.v.int, lo, hi)
+
+    def size(self, name):
+        return self._c(name, self.v.size)
+
+    def bool(self, name):
+        return self._c(name, self.v.bool)
+
+    def dig(self, name):
+        return self._c(name, self.v.dig)
+
+    def choice(self, name, n):
+        return self._c(name, self.v.choice, n)
+
+    def lazychoice(self, name, n):
+        if name in self.consts:
+            return lambda: self.consts[name]
+        return self.v.lazychoice(name, n)
+
+
+A_OK = {'a_kind': 1, 'a_size': 2, 'a_dig': 'A', 'a_mtime': 3, 'ea_present': True,
+        'ea_tag': 0, 'ea_size': 2, 'ea_dig': 'A'}
+C_OK = {'c_kind': 1, 'c_size': 4, 'c_dig': 'C', 'c_mtime': 3, 'ec_present': True,
+        'ec_tag': 0, 'ec_size': 4, 'ec_dig': 'C'}
+
+
+def make_s_nest(a_tags=ETAGS, c_tags=ETAGS, consts=None):
+    def s_nest(v):
+        return _s_nest(Const(v, consts) if consts else v, a_tags, c_tags)
+    return s_nest
+
+
+def _s_nest(v, a_tags, c_tags):
+    """Manifest, a, sub/{Manifest, c}, subx/{d}; `subx` is a string- but not
+    component-prefix look-alike of `sub`."""
+    c = Ctx()
+    fs = c.fs = ModelFS()
+    file_slot(v, fs, 'a', 'a')
+    fs.add_dir('sub')
+    fs.add_dir('subx')
+    file_slot(v, fs, 'sub/c', 'c')
+    fs.add_file('subx/d', size=3, digest='D', mtime=5)
+    sm_size, sm_dig = v.size('sm_size'), v.dig('sm_dig')
+    me_size, me_dig = v.size('me_size'), v.dig('me_dig')
+    top = entry_slot(v, 'ea', 'a', tags=a_tags)
+    top.append(mk('MANIFEST', 'sub/Manifest', me_size, MD5=digest_for('MD5', me_dig)))
+    top.append(mk('DATA', 'subx/d', 3, MD5=digest_for('MD5', 'D')))
+    fs.add_manifest('sub/Manifest', entry_slot(v, 'ec', 'c', tags=c_tags), size=sm_size,
+                    digest=sm_dig)
+    fs.add_manifest('Manifest', top)
+    c.path = pick(('', 'sub', 'subx'), v.choice('vp', 3))
+    um, lm = v.bool('use_mtime'), v.int('last_mtime')
+    c.last_mtime = lm if um else None
+    return c
+
+
+def s_ign(v):
+    """IGNORE on a directory / nested directory; look-alike names next to it; a stray file
+    inside the ignored subtree and inside the look-alike."""
+    c = Ctx()
+    fs = c.fs = ModelFS()
+    fs.add_dir('sub')
+    fs.add_dir('sub/deep')
+    fs.add_dir('subx')
+    ign = pick(('sub', 'sub/deep', 'su', 'sub/de', 'subx'), v.choice('ign', 5))
+    x1 = file_slot(v, fs, 'sub/s', 's', kinds=('absent', 'file'))
+    x2 = file_slot(v, fs, 'sub/deep/t', 't', kinds=('absent', 'file'))
+    x3 = file_slot(v, fs, 'subx/u', 'u', kinds=('absent', 'file'))
+    top = [mk('IGNORE', ign)]
+    top += entry_slot(v, 'es', 'sub/s', tags=('DATA',))
+    top += entry_slot(v, 'eu', 'subx/u', tags=('DATA',))
+    fs.add_manifest('Manifest', top)
+    c.path = pick(('', 'sub', 'subx'), v.choice('vp', 3))
+    c.last_mtime = None
+    return c
+
+
+def s_dup(v):
+    """one file listed twice in one Manifest and once more in the child Manifest's parent"""
+    c = Ctx()
+    fs = c.fs = ModelFS()
+    fs.add_dir('sub')
+    file_slot(v, fs, 'sub/c', 'c', kinds=('absent', 'file'))
+    top = entry_slot(v, 'e1', 'sub/c', tags=('DATA', 'MISC', 'EBUILD'), two_hashes=True)
+    sub = entry_slot(v, 'e2', 'c', tags=('DATA', 'MISC', 'EBUILD'))
+    fs.add_manifest('sub/Manifest', sub, size=9, digest='S')
+    top.append(mk('MANIFEST', 'sub/Manifest', 9, MD5=digest_for('MD5', 'S')))
+    fs.add_manifest('Manifest', top)
+    c.path = pick(('', 'sub'), v.choice('vp', 2))
+    c.last_mtime = None
+    return c
+
+
+def s_odd(v):
+    """awkward names, hidden files (listed and not), directory in place of a listed file"""
+    c = Ctx()
+    fs = c.fs = ModelFS()
+    names = ('with space', 'back\\slash', 'nb sp', '\U0001f600', '-dash')
+    n = pick(names, v.choice('name', len(names)))
+    file_slot(v, fs, n, 'f')
+    hk = file_slot(v, fs, '.hid', 'h', kinds=('absent', 'file'))
+    fs.add_dir('.hdir')
+    fs.add_file('.hdir/stray', size=1, digest='x')
+    top = entry_slot(v, 'ef', n, tags=('DATA', 'IGNORE'))
+    top += entry_slot(v, 'eh', '.hid', tags=('DATA',))
+    fs.add_manifest('Manifest', top)
+    c.path = ''
+    c.last_mtime = None
+    return c
+
+
+def run_verify(c):
+    return tree.run_verify(c.fs, 'Manifest', c.path, c.last_mtime)
+
+
+def judge_verify(c, out):
+    o = tree.oracle_verify(c.fs, 'Manifest', c.path, c.last_mtime, first_only=True)
+    if o.dontcare:
+        return True, False
+    exp = tree.expected_outcomes(o)
+    return out in exp, (exp == ('mismatch',) and not o.chain_error)
+
+
+def m_conditions(tier):
+    cs = []
+    bnd = ('S-nest: Manifest, a, sub/{Manifest,c}, subx/d; symbolic kind/size/digest/mtime of '
+           'a and sub/c, entry presence/tag/size/digest, sub-Manifest link (size,digest on '
+           'both sides), verified path in {"", sub, subx}, last_mtime None or any int; ')
+    D = ('DATA',)
+    if tier == 'quick':
+        plans = [('A', ETAGS, D, C_OK, [('a_kind', range(3)), ('ea_present', (False, True))]),
+                 ('B', D, ETAGS, A_OK, [('c_kind', range(3)), ('ec_present', (False, True))]),
+                 ('C', D, D, None, [('a_kind', range(3)), ('ea_present', (False, True)),
+                                    ('c_kind', range(3)), ('ec_present', (False, True))])]
+    else:
+        plans = [('F', ETAGS, ETAGS, None,
+                  [('a_kind', range(3)), ('ea_present', (False, True)),
+                   ('c_kind', range(3)), ('ec_present', (False, True)),
+                   ('ea_tag', range(5)), ('ec_tag', range(5))])]
+    for pname, at, ct, consts, parts in plans:
+        sc = make_s_nest(at, ct, consts)
+        for fx in partitions(parts):
+            if not fx.get('ea_present', True) and fx.get('ea_tag', 0) != 0:
+                continue
+            if not fx.get('ec_present', True) and fx.get('ec_tag', 0) != 0:
+                continue
+            nm = 'm_nest%s_' % pname + '_'.join(
+                f'{k.replace("_", "")[:4]}{int(x)}' for k, x in fx.items())
+            cs.append(make_cond(
+                nm, sc, run_verify, judge_verify, fx, timeout=300, group='M-nest',
+                twin=(fx.get('a_kind', 1) == 1 and fx.get('ea_present', True)
+                      and fx.get('c_kind', 1) == 1 and fx.get('ec_present', True)),
+                descr='real assert_directory_verifies on the S-nest model vs set-based '
+                      'oracle', bounds=bnd + f'tags(a) in {at}, tags(c) in {ct}'
+                       + (f'; fixed consistent: {sorted(consts)}' if consts else '')))
+    others = [
+        ('m_ign', s_ign, [('ign', range(5)), ('vp', range(3))], 'S-ign: IGNORE on sub | '
+         'sub/deep | su | sub/de | subx with files sub/s, sub/deep/t, subx/u (each absent or '
+         'a symbolic regular file) and optional DATA entries for sub/s and subx/u; verified '
+         'path in {"", sub, subx}'),
+        ('m_dup', s_dup, [('e1_present', (False, True)), ('e2_present', (False, True)),
+                          ('c_kind', range(2))], 'S-dup: sub/c listed in the top Manifest '
+         '(2 hashes) and in sub/Manifest (1 hash), tags in DATA/MISC/EBUILD, sizes and '
+         'digests symbolic'),
+        ('m_odd', s_odd, [('name', range(5)), ('f_kind', range(3))], 'S-odd: names with '
+         'space, backslash, U+00A0, U+1F600, leading dash; hidden file listed or not; '
+         'hidden directory with a stray; directory in place of a listed file'),
+    ]
+    for nm0, sc, parts, bnd in others:
+        for fx in partitions(parts):
+            nm = nm0 + '_' + '_'.join(f'{k.replace("_", "")[:4]}{int(x)}'
+                                      for k, x in fx.items())
+            cs.append(make_cond(nm, sc, run_verify, judge_verify, fx, timeout=300,
+                                group='M-' + nm0[2:], twin=False,
+                                descr='real assert_directory_verifies on the model vs '
+                                      'set-based oracle', bounds=bnd))
     return cs
